@@ -15,10 +15,13 @@ def run_scenarios(ctx):
     n = 6 if ctx.tier == 'quick' else 40
     for i in range(n):
         w = hist.World(ctx, i, random.Random(rng.randrange(1 << 30)), max_groups=rng.choice([1, 1, 2]), max_per_group=rng.choice([1, 2, 3]))
+        forced = i == 1       # one storage where every later run rotates, removes the old group and has a reported (non-fatal) error
+        if forced:
+            w.max_groups, w.max_per_group = 1, 1
         try:
             for k in range(rng.randint(1, 12 if i % 3 else 60)):
                 open(os.path.join(w.items[0], 'f%d' % k), 'wb').write(os.urandom(rng.choice([10, 5000, 200000])))
-            nruns = rng.randint(1, 4)
+            nruns = 3 if forced else rng.randint(1, 4)
             for r in range(nruns):
                 if rng.random() < 0.3 and r > 0:
                     # an abandoned temporary in the newest group
@@ -29,20 +32,26 @@ def run_scenarios(ctx):
                 for _ in range(rng.randint(0, 3)):
                     w.edit()
                 t = os.path.join(w.base, 'trace-%d.txt' % r)
-                adv = rng.choice([5, hist.DAY])
+                adv = hist.DAY if forced else rng.choice([5, hist.DAY])
                 env = {'TRACE': t, 'WATCH': w.root}
                 fault = None
-                if rng.random() < 0.35:
+                if rng.random() < 0.35 and not forced:
                     # a flush that fails: the run must not go on to rename / report success / delete
                     tmp = os.path.join(w.root, sorted(os.listdir(w.root))[-1] if os.listdir(w.root) else store.group_name(w.now + adv), '.' + store.backup_name(w.now + adv))
                     grp_new = os.path.join(w.root, store.group_name(w.now + adv))
                     fault = rng.choice(['fsync@%s/data.tar.zst' % tmp, 'fsync@%s/metadata.zst' % tmp, 'fsyncdir@%s' % tmp, 'fsyncdir@%s' % os.path.dirname(tmp),
-                                        'fsync@%s/.%s/data.tar.zst' % (grp_new, store.backup_name(w.now + adv)), 'fsyncdir@%s' % grp_new]) + '=' + rng.choice(['EIO', 'ENOSPC'])
+                                        'fsync@%s/.%s/data.tar.zst' % (grp_new, store.backup_name(w.now + adv)), 'fsyncdir@%s' % grp_new]) + '=' + rng.choice(['EIO', 'ENOSPC', 'EINVAL'])
                     env['FAULT'] = fault
+                soft = (forced and r > 0) or rng.random() < 0.2
+                if soft:
+                    # a configured item that does not exist: reported, exit status 1, and the backup is still made and published
+                    w.items.append(os.path.join(w.base, 'no-such-item')); w.filters.append(None)
                 res = w.backup(advance=adv, shim_env=env)
+                if soft:
+                    w.items.pop(); w.filters.pop()
                 recs = tr.parse(t, w.root)
                 ops, failed = tr.canonical(recs, w.root)
-                out.append({'scenario': i, 'run': r, 'rc': res.rc, 'ops': ops, 'failed': failed, 'errors': res.errors()[:3], 'fault': fault,
+                out.append({'scenario': i, 'run': r, 'rc': res.rc, 'ops': ops, 'failed': failed, 'errors': res.errors()[:3], 'fault': fault, 'soft_error': soft,
                             'fault_hit': any(f[0] in ('fsync', 'fsyncdir') for f in failed)})
         finally:
             w.cleanup()
@@ -79,7 +88,7 @@ def check(ctx):
         if not isinstance(v, dict):
             ctx.violation('proof', 'model driver failed on a trace', {'case': r}, found_input=False)
             continue
-        if published and not v['orderOk']:
+        if not v['orderOk'] and not r.get('fault_hit'):
             rejected += 1
             ctx.violation('property', 'the order monitor rejects the storage trace of a real run: something is renamed, removed or reported before it is durable',
                           {'case': {'ops': r['ops'], 'rc': r['rc']}, 'verdict': v})
@@ -98,7 +107,7 @@ def check(ctx):
                 'non-trivial = a run that appends to a group, removes abandoned temporaries or removes old groups; distinct by derived scenario',
         'samples': [scen[0]] if scen else [],
         'correspondence': st, 'traces_validated_against_impl': len(good), 'runs_with_old_group_removal': nrot, 'runs_with_abandoned_temporaries': nab,
-        'monitor_rejections': rejected, 'disagreements_checked': st['cases'], 'runs_with_a_failed_flush': sum(1 for r in runs if r.get('fault_hit')),
+        'monitor_rejections': rejected, 'runs_with_a_soft_error': sum(1 for r in runs if r.get('soft_error')), 'disagreements_checked': st['cases'], 'runs_with_a_failed_flush': sum(1 for r in runs if r.get('fault_hit')),
     })
     ctx.assumptions += ['file data persists only by fsync of the file, directory entries only by fsync of the directory (the property\'s model); creation of a new group directory in the root is assumed persisted',
                         'no real power loss is staged: the replay of a rejected trace is the trace plus the model\'s recovered state',
